@@ -160,13 +160,13 @@ def num_of(v):
 def impl_num(ans, var="N", evar="E"):
     """-> ('int',n) | ('flt',bits) | ('err', kind) | ('other', text)"""
     if ans.startswith("error("):
-        m = re.match(r"error\('error'\('syntax_error'\('([a-z_]+)'\)", ans)
+        m = re.match(r"error\('error'\('syntax_error'\('([a-z0-9_]+)'\)", ans)
         return ("err", m.group(1)) if m else ("other", ans)
     b = bindings(ans)
     if b is None:
         return ("other", ans)
     if evar in b:
-        m = re.fullmatch(r"'syntax_error'\('([a-z_]+)'\)", b[evar])
+        m = re.fullmatch(r"'syntax_error'\('([a-z0-9_]+)'\)", b[evar])
         return ("err", m.group(1)) if m else ("other", ans)
     n = num_of(b.get(var))
     return n if n else ("other", ans)
@@ -412,7 +412,7 @@ def model_lines(it):
         f = ("\t" + drv_codes(it["text"])) if it["text"] else ""
         return ["num\t%s_m%s" % (i, f), "nump\t%s_p%s" % (i, f)]
     if it["kind"] == "tok":
-        return ["tok\t%s_m\t%s" % (i, drv_codes(it["text"]))]
+        return ["tok\t%s_m\t%s" % (i, drv_codes(it["text"] + " ."))]
     if it["kind"] == "int":
         return ["show\t%s_m\t%d" % (i, it["value"])]
     return []
@@ -436,7 +436,7 @@ def impl_lines(it, mres):
             out.append("Q\t%s_cq\t2\tc16_%s(N)." % (i, i))
     elif it["kind"] == "tok":
         t = it["text"]
-        out.append("Q\t%s_rd\t1\top(200,xfx,%s), catch(read_term_from_chars(%s, N, []), error(E,_), true), op(0,xfx,%s)."
+        out.append("Q\t%s_rd\t1\top(700,xfx,%s), catch(read_term_from_chars(%s, N, []), error(E,_), true), op(0,xfx,%s)."
                    % (i, OPS, esc_line(pl_chars_line(t + " .")), OPS))
     elif it["kind"] == "int":
         v = it["value"]
@@ -525,13 +525,20 @@ def expected_tok_term(mres):
         return "error"
     val = m.group(2) if m.group(2) is not None else "f(%s)" % m.group(3)
     rest = "".join(chr(int(x)) for x in m.group(4).split()) if m.group(4) else ""
-    if rest.strip(" ") == "":
+    # the text given to both sides ends with " ." (the end token)
+    if rest.endswith(" ."):
+        rest = rest[:-2]
+    elif rest == ".":
+        rest = ""
+    else:
+        return None
+    if rest.strip(" \n\t") == "":
         return val
-    mm = re.fullmatch(r"\s*([exob]) ([a-z0-9])", rest)
+    mm = re.fullmatch(r"\s*([exob]) ([agz0-9])", rest)
     if mm:
         arg = mm.group(2)
         return "'%s'(%s,%s)" % (mm.group(1), val, arg if arg.isdigit() else "'%s'" % arg)
-    mm = re.fullmatch(r"e([+-])([a-z])", rest)
+    mm = re.fullmatch(r"e([+-])([agz])", rest)
     if mm:
         return "'e'(%s,'%s'('%s'))" % (val, mm.group(1), mm.group(2))
     mm = re.fullmatch(r"e([+-]) ([0-9])", rest)
@@ -726,7 +733,10 @@ def run(ctx):
                 agree += 1
                 continue
             # float rounding defect seen through the reader
-            mg, me = num_of(got) if got else None, num_of(exp)
+            fg, fe = re.findall(r"f\([0-9a-f]{16}\)", got or ""), re.findall(r"f\([0-9a-f]{16}\)", exp)
+            mg = me = None
+            if len(fg) == 1 and len(fe) == 1 and (got or "").replace(fg[0], "F") == exp.replace(fe[0], "F"):
+                mg, me = num_of(fg[0]), num_of(fe[0])
             if mg and me and mg[0] == "flt" and me[0] == "flt":
                 status, f = classify_num(it, "read_term", mg, me, me, stats)
                 record(status, f, it)
@@ -789,6 +799,13 @@ def run(ctx):
                 what = "text does not read back to the same float" if (not back_ok or fr.startswith("bits") or fr.startswith("noparse")) else "text is not the shortest that reads back"
                 sig = dict(base, bits="%016x" % x, text=str(txt)[:60], model_check=fr, impl_back=str(b.get(yvar, b.get(evar)))[:60])
                 findings.append(core.Finding("violation" if (not back_ok or fr != "notshortest") else "disagreement", sig, what, mini_case(it)))
+    summary = {}
+    for f in findings:
+        k = "%s/%s/%s" % (f.kind, f.sig.get("family"), f.sig.get("defect", f.sig.get("via", "-")))
+        summary[k] = summary.get(k, 0) + 1
+    core.log("[C16] findings by class: %s" % summary)
+    for f in [f for f in findings if "defect" not in f.sig][:15]:
+        core.log("[C16]   %s %s" % (f.kind, f.detail[:300]))
     samples = [repr(it.get("text", it.get("value", it.get("src")))) for it in items[:: max(1, len(items) // 8)]][:8]
     return {
         "evaluations": total,
